@@ -69,4 +69,22 @@ def handleC08s (f : List String) : Res :=
     | _, _ => bad "c08s-parse"
   | _ => bad "c08s-arity"
 
+/-- `c08k <strategy> <n> <impl: panic|list>`: one `Strategy.K` call -/
+def handleC08k (f : List String) : Res :=
+  match f with
+  | [st, ns, impl] =>
+    match pStrategy st, pInt ns with
+    | some s, some n =>
+      let r : Res := {}
+      let r := cmp "strategy-k-model" (showInts (s.K n)) impl r
+      let showO : Option (List Int) → String | none => "panic" | some l => showInts l
+      let r := match s with
+        | .binary => cmp "translated-binary-k" (showO (AC.Gen.Program.contfracBinaryStrategyK n)) impl r
+        | .coBinary => cmp "translated-cobinary-k" (showO (AC.Gen.Program.contfracCoBinaryStrategyK n)) impl r
+        | .dichotomic => cmp "translated-dichotomic-k" (showO (AC.Gen.Program.contfracDichotomicStrategyK n)) impl r
+        | _ => r
+      { r with spec := "na", nt := decide (n ≥ 4), tag := s!"strategy-k={st}" }
+    | _, _ => bad "c08k-parse"
+  | _ => bad "c08k-arity"
+
 end AC.Drv
